@@ -39,7 +39,7 @@ ASSUMPTIONS = [
 TECHNIQUE = "reference-model + relational (merged-category twin run) + intrinsic runtime monitors"
 DESIGN_REF = "DESIGN.md 4 C04"
 WEIGHTS = ["none", "frac", "zeros", "float"]
-MSETS = [(), ("mean", "stddev"), (), ("valid_counts", "mean"), ("median", "sum"), ("sq_weights",)]
+MSETS = [(), ("mean", "stddev"), ("sum",), ("valid_counts", "mean"), ("median", "sum"), ("sq_weights",)]
 REQUIRED_REACH = [
     "a_count", "b_intersection", "c_merge", "d_nonadditive_nan", "e_diff_base_nan",
     "e_diff_x_diff_nan", "e_wave_diff", "e_wave_multi_nan", "strand_count", "strand_merge",
@@ -77,7 +77,11 @@ def make_case(unit):
     if "numarr" in template:
         spec = sim.CubeSpec(facets, w, ("mean", "sum") if g.chance(0.5) else ("mean",))
     else:
-        spec = sim.CubeSpec(facets, w, mset, g.num(N) if mset else None)
+        # sums: many cells without any valid value (an unavailable sum must stay confined to
+        # the subtotals it is a term of)
+        numvar = (g.num(N, p_missing=g.pick([0.1, 0.4, 0.6, 0.75])) if "sum" in mset
+                  else g.num(N)) if mset else None
+        spec = sim.CubeSpec(facets, w, mset, numvar)
     return {"template": template, "spec": sim.spec_to_dict(spec), "transforms": transforms,
             "ins_labels": labels, "population": 1000}
 
